@@ -187,6 +187,25 @@ def feat_padded_array_after_unsized_payload(env, ty, case):
     return False
 
 
+def feat_subbyte_fields_under_sized_parent(env, ty, case):
+    d = env.decls[ty]
+    chain = env.parents(d)
+    if not any(f["kind"] == "size_field" and f.get("field_id") in ("_payload_", "_body_") for a in chain for f in a["fields"]):
+        return False
+    for x in [d] + chain[:-1] if chain else [d]:
+        for f in x["fields"]:
+            if f["kind"] == "reserved_field":
+                return True
+            w = f.get("width") if f["kind"] in ("scalar_field", "size_field", "count_field", "elementsize_field", "fixed_field") else None
+            if f["kind"] == "typedef_field" and env.decls.get(f["type_id"], {}).get("kind") == "enum_declaration":
+                w = env.decls[f["type_id"]]["width"]
+            if f["kind"] == "fixed_field" and "enum_id" in f:
+                w = env.decls[f["enum_id"]]["width"]
+            if w is not None and w % 8 != 0 and not f.get("cond"):
+                return True
+    return False
+
+
 def feat_any(env, ty, case):
     return True
 
